@@ -26,3 +26,9 @@ GROUPS += [
     _pq('C12.O4.priorityqueue_put', 'h_put', 'H_PUT', 'arbitrary queue of <= 3 entries, any capacity', canaries=2),
     _pq('C12.O5.priorityqueue_position_cancel_reprioritize', 'h_misc', 'H_MISC', 'arbitrary queue of <= 3 entries; any handle'),
 ]
+
+# the priority-queue groups once more with the hashheap stub reduced to the contract of remove / dequeue (arbitrary layout of the
+# remaining entries afterwards, a minimum at the front): nothing above the hashheap may depend on where the other entries sit
+for _g_ in [_pq('C12.O4.priorityqueue_get.anylayout', 'h_get', 'H_GET', 'as C12.O4.priorityqueue_get; arbitrary re-layout of the remaining entries after every removal', canaries=2),
+            _pq('C12.O5.priorityqueue_position_cancel_reprioritize.anylayout', 'h_misc', 'H_MISC', 'as C12.O5; arbitrary re-layout of the remaining entries after every removal')]:
+    _g_.defines.append('CMV_HH_ANY_LAYOUT'); _g_.also = ['C10']; GROUPS.append(_g_)   # their C08 / C14 tags are decided by the plain groups
